@@ -1,7 +1,6 @@
 package main
 
 import (
-	"strings"
 	"bytes"
 	"crypto/cipher"
 	"crypto/rand"
@@ -12,6 +11,7 @@ import (
 	"os"
 	"os/exec"
 	"runtime"
+	"strings"
 	"sync"
 	"sync/atomic"
 	"time"
@@ -368,7 +368,7 @@ func c20SharedConfig(c *Ctx) {
 			var rot sync.WaitGroup
 			rot.Add(1)
 			var handshakesDone int64 // the rotator's clock: it rotates once per 5 completed handshakes, whatever the machine load
-			go func() { // concurrent ticket key rotation
+			go func() {              // concurrent ticket key rotation
 				defer rot.Done()
 				var keys [][32]byte
 				var last int64 = -5
